@@ -673,6 +673,10 @@ func TestC19(t *testing.T) {
 			// pass through exactly: C0/C1 controls, DEL, quotes, backslashes, U+2028, a byte order
 			// mark, astral characters; also as object keys
 			s1, s2 := genHardString(t, "cliS1"), genHardString(t, "cliS2")
+			if uni(t, 3, "lookalike") == 0 {
+				s1 = hardDocStrings[uni(t, len(hardDocStrings), "cliLook1")]
+				s2 = hardDocStrings[uni(t, len(hardDocStrings), "cliLook2")]
+			}
 			d := map[string]interface{}{"s": s1, "l": []interface{}{s2, s1}, "o": map[string]interface{}{s2: s1}, "n": hardDocNumbers[uni(t, len(hardDocNumbers), "cliNum")]}
 			expr = []string{"s", "l", "o", "[s]", "{k: s}", "join('', l)", "to_string(s)", "keys(o)", "values(o)", "@", "l[0]", "reverse(s)", "n", "[n]", "to_string(n)", "to_string(@)", "s || l", "l[?@ == s]"}[uni(t, 18, "cliHardExpr")]
 			c := withExpr(Case{Property: "C19", Kind: "cli"}, expr)
